@@ -270,7 +270,7 @@ Local Opaque buf_appends split_by_script split_by_vert split_by_face enforce_lan
 (* the slice returned by Split does not depend on the state of the Segmenter it is called on *)
 Lemma split_runs_pure e s x : split_runs e s x = split_pure e x.
 Proof.
-  unfold split_runs, split, split_pure, resolve_orientation.
+  unfold split_runs, split, split_rest, split_pure, resolve_orientation.
   destruct (split_by_bidi (zlen (e_text e)) (e_bidi e) x) as [b| | |]; cbn; auto.
   rewrite live_appends. cbn.
   destruct (split_by_script (e_text e) [] b) as [(stk, sc)| | |]; cbn; auto.
